@@ -198,6 +198,8 @@ func (x *secExec) Exec(a []string) string {
 		return x.importKS(a[1], a[2])
 	case a[0] == "kimportmn" && len(a) == 6:
 		return x.importMn(a[1], a[2], a[3], a[4], a[5])
+	case a[0] == "kimportmnbad" && len(a) == 6:
+		return x.importMnBad(a[1], a[2], a[3], a[4], a[5])
 	case a[0] == "kmnemonic" && len(a) == 3:
 		return x.mnemonic(a[1], a[2])
 	case a[0] == "kremove" && len(a) == 3:
@@ -395,6 +397,58 @@ func (x *secExec) importMn(w, passHex, src, ext, inr string) string {
 	x.pass[name] = p
 	x.present[name] = true
 	return "ok:" + name
+}
+
+// importMnBad: restore from the sentence of SRC with ONE word spelled the way users mis-type it (capitalised, trailing
+// comma, numbered "7.word"); the import must be refused and the refusal must not echo the sentence: the error text is
+// searched, case-insensitively, for the mis-typed token and for every word of the sentence that does not already occur in
+// the refusal of a sentence of twelve non-words (the control fixes which words the constant message itself contains).
+// Seed C05-4: EntropyFromMnemonic wrapped the offending word into its error.
+func (x *secExec) importMnBad(w, passHex, src, kind, jTok string) string {
+	e := x.e
+	p, ok := passTok(passHex)
+	mn, ok2 := e.mnemonic[src]
+	j, err0 := strconv.Atoi(jTok)
+	words := strings.Fields(mn)
+	if !ok || !ok2 || err0 != nil || j < 0 || j >= len(words) {
+		return "bad-op"
+	}
+	bad := append([]string{}, words...)
+	switch kind {
+	case "cap":
+		bad[j] = strings.ToUpper(bad[j][:1]) + bad[j][1:]
+	case "comma":
+		bad[j] = bad[j] + ","
+	case "num":
+		bad[j] = fmt.Sprintf("%d.%s", j+1, bad[j])
+	case "upper":
+		bad[j] = strings.ToUpper(bad[j])
+	default:
+		return "bad-op"
+	}
+	imp := func(sentence string) error {
+		e.wm.VerifEnsureTaskChan()
+		_, err := e.wm.ImportWalletWithMnemonic(&keystore.WalletParams{
+			Version: keystore.KeystoreVersion0, Mnemonic: sentence, PrivatePassphrase: []byte(p),
+			AddressGapLimit: e.cfg.Wallet.Settings.AddressGapLimit})
+		return err
+	}
+	ctl := imp(strings.TrimSpace(strings.Repeat("zzzzq ", len(words))))
+	err := imp(strings.Join(bad, " "))
+	if err == nil || ctl == nil {
+		return "ok!accepted"
+	}
+	x.note(err)
+	ctlMsg, msg := strings.ToLower(ctl.Error()), strings.ToLower(err.Error())
+	if strings.Contains(msg, strings.ToLower(bad[j])) {
+		return "refused:LEAK:mistyped-word@error"
+	}
+	for _, wd := range words {
+		if len(wd) >= 4 && !strings.Contains(ctlMsg, wd) && strings.Contains(msg, wd) {
+			return "refused:LEAK:mnemonic-word@error"
+		}
+	}
+	return "refused:clean"
 }
 
 func (x *secExec) mnemonic(w, passHex string) string {
